@@ -247,6 +247,27 @@ def main(chk):
       exp = want if 'split' in name else want[:-1]
       if got != exp:
         chk.violation(f'C16:state:{name}:{sig}', f'{name}: groups {got}, specification (first match) {exp} [{sig}]', case)
+    # the leaf class itself as a type filter: every VariableState leaf goes to that group, raw array leaves to the remainder
+    try:
+      mixed = nnx.State.from_flat_path({**dict(nnx.to_flat_state(a)), ('raw', 'leaf'): jnp.asarray(1)})
+      for name, parts in (('split_state', nnx.split_state(mixed, nnx.VariableState, ...)), ('FlatState.split', nnx.to_flat_state(mixed).split(nnx.VariableState, ...))):
+        g1, g2 = [sorted(tuple(p) for p, _ in (nnx.to_flat_state(x) if isinstance(x, nnx.State) else x)) for x in parts]
+        if g1 != sorted(tuple(p) for p, _ in nnx.to_flat_state(a)) or g2 != [('raw', 'leaf')]:
+          chk.violation(f'C16:state:{name}:VariableState-filter', f'groups {g1} / {g2} for the filter (nnx.VariableState, ...) [{sig}]', case)
+    except Exception as e:
+      chk.violation('C16:state:VariableState-filter', f'raised {type(e).__name__}: {str(e)[:120]} [{sig}]', case)
+    # merge is the inverse of split, for flat states too - empty groups anywhere in the list included
+    try:
+      flat = nnx.to_flat_state(a)
+      groups = flat.split(*fs, ...)
+      back = type(flat).merge(*groups)
+      m += 1
+      chk.count(('FlatState.merge', sig))
+      if sorted(tuple(p) for p, _ in back) != sorted(tuple(p) for p, _ in flat) or proj(nnx.from_flat_state(back)) != proj(a):
+        chk.violation(f'C16:state:FlatState.merge:{sig}', f'FlatState.merge(*flat.split(...)) holds {sorted(tuple(p) for p, _ in back)}, the state '
+                                                         f'{sorted(tuple(p) for p, _ in flat)} (group sizes {[len(g) for g in groups]})', case)
+    except Exception as e:
+      chk.violation('C16:state:FlatState.merge', f'raised {type(e).__name__}: {str(e)[:120]} [{sig}]', case)
   # three-way merges: later states win path by path
   st3 = tlc.require_ok(tlc.run('Traverse', 'Traverse_state3.cfg', workers=1, timeout=1800), 'Traverse state3')
   chk.add_tlc(st3, 'Traverse state triples')
